@@ -53,9 +53,9 @@ fn plan(tier: Tier) -> Vec<Workload> {
     vec![
         Workload::new("adjacency", (combos + BATCH - 1) / BATCH),
         Workload::new("numerals", tier.pick(20_000, 200_000) / BATCH),
-        Workload::new("data", tier.pick(60_000, 1_000_000) / BATCH),
-        Workload::new("toklines", tier.pick(40_000, 800_000) / BATCH),
-        Workload::new("programs", tier.pick(15_000, 300_000)),
+        Workload::new("data", tier.pick(200_000, 3_000_000) / BATCH),
+        Workload::new("toklines", tier.pick(150_000, 2_000_000) / BATCH),
+        Workload::new("programs", tier.pick(60_000, 1_000_000)),
     ]
 }
 
